@@ -209,3 +209,208 @@ pub fn run_history(seed: u64, threads: usize, ops: usize, limit: usize, allow_fo
     }
     HistoryOutcome { violations, interleaving_hash: h, ops: ops_n, grants, denials, forced, samples }
 }
+
+/// Resize-window scenario. One owner holds at least `floor` bytes of a pool of
+/// `limit` for a whole odd epoch while it resizes its reservation up and down
+/// inside [floor, limit]; probers ask for `ask` bytes with floor + ask > limit.
+/// A grant whose request began and ended inside the same odd epoch was made
+/// while the owner's reservation was alive and at least `floor` big, so it
+/// cannot have fitted: either the pool's usage did not equal the sum of live
+/// reservations at that moment or the limit was ignored.
+pub fn run_resize_window(seed: u64, probers: usize, epochs: usize, resizes: usize) -> HistoryOutcome {
+    let limit = 1000usize;
+    let floor = 800usize;
+    let ask = 300usize;
+    let pool = MemoryPool::new(limit);
+    let epoch = AtomicU64::new(0);
+    let done = AtomicU64::new(0);
+    let mut violations: Vec<String> = Vec::new();
+    let (mut ops, mut grants, mut denials, mut samples) = (0u64, 0u64, 0u64, 0u64);
+    let mut hash = 0xcbf29ce484222325u64;
+    std::thread::scope(|s| {
+        let (pool, epoch, done) = (&pool, &epoch, &done);
+        let owner = s.spawn(move || {
+            let mut rng = Xs(seed.wrapping_mul(0x9E3779B97F4A7C15) | 1);
+            let mut v = Vec::new();
+            let mut n = 0u64;
+            for _ in 0..epochs {
+                // wait until the probers' leftovers are gone and the big block fits
+                let mut r = loop {
+                    if let Some(r) = pool.try_allocate(floor + 100) {
+                        break r;
+                    }
+                    std::thread::yield_now();
+                };
+                epoch.fetch_add(1, O::SeqCst); // odd: at least `floor` is held from here on
+                for _ in 0..resizes {
+                    let new = floor + rng.below((limit - floor) as u64 + 1) as usize;
+                    r.resize(new);
+                    n += 1;
+                    if r.size() != new {
+                        v.push(format!("resize({}) left size {}", new, r.size()));
+                    }
+                    let u = pool.used();
+                    if u > usize::MAX / 2 {
+                        v.push(format!("used() = {} (underflow / wrap-around) during a resize", u));
+                    }
+                }
+                epoch.fetch_add(1, O::SeqCst); // even: the block may go away
+                drop(r);
+            }
+            done.store(1, O::SeqCst);
+            (v, n)
+        });
+        let mut hs = Vec::new();
+        for _ in 0..probers {
+            hs.push(s.spawn(move || {
+                let mut v = Vec::new();
+                let (mut g, mut d, mut inside) = (0u64, 0u64, 0u64);
+                let mut trace = 0u64;
+                while done.load(O::SeqCst) == 0 {
+                    let e1 = epoch.load(O::SeqCst);
+                    let r = pool.try_allocate(ask);
+                    let e2 = epoch.load(O::SeqCst);
+                    let odd_same = e1 == e2 && e1 % 2 == 1;
+                    if odd_same {
+                        inside += 1;
+                    }
+                    match r {
+                        Some(r) => {
+                            g += 1;
+                            trace = trace.wrapping_mul(31).wrapping_add(e1 * 2 + 1);
+                            if odd_same {
+                                v.push(format!(
+                                    "over-grant: try_allocate({}) granted while a live reservation of at least {} was being resized in a pool of {} (used() now {})",
+                                    ask, floor, limit, pool.used()
+                                ));
+                            }
+                            drop(r);
+                        }
+                        None => {
+                            d += 1;
+                            trace = trace.wrapping_mul(31).wrapping_add(e1 * 2);
+                        }
+                    }
+                    std::thread::yield_now();
+                }
+                (v, g, d, inside, trace)
+            }));
+        }
+        let (v, n) = owner.join().expect("owner");
+        violations.extend(v);
+        ops += n;
+        for h in hs {
+            let (v, g, d, inside, trace) = h.join().expect("prober");
+            violations.extend(v);
+            grants += g;
+            denials += d;
+            samples += inside;
+            ops += g + d;
+            hash ^= trace;
+            hash = hash.wrapping_mul(0x100000001b3);
+        }
+    });
+    if pool.used() != 0 {
+        violations.push(format!("after dropping every reservation used() = {}", pool.used()));
+    }
+    violations.truncate(8);
+    HistoryOutcome { violations, interleaving_hash: hash, ops, grants, denials, forced: 0, samples }
+}
+
+/// Sequential lock-step model at the edges of the counter's range: one thread,
+/// so the answer of every call is determined. Sizes sit next to 0, the limit
+/// and usize::MAX; forced bytes are kept inside the counter's range (what a
+/// forced allocation past usize::MAX should do is not something the property
+/// states).
+pub fn run_boundary(seed: u64, ops: usize, limit: usize) -> HistoryOutcome {
+    let pool = MemoryPool::new(limit);
+    let mut rng = Xs(seed.wrapping_mul(0x9E3779B97F4A7C15) | 1);
+    let mut model_used: usize = 0;
+    let mut held: Vec<(MemoryReservation, usize)> = Vec::new();
+    let mut violations = Vec::new();
+    let (mut grants, mut denials, mut forced) = (0u64, 0u64, 0u64);
+    let mut hash = 0xcbf29ce484222325u64;
+    let m = usize::MAX;
+    let edge = [0usize, 1, 2, 89, 90, 1000, limit / 2, limit.saturating_sub(1), limit, limit.saturating_add(1), m / 2, m / 2 + 1, m - 90, m - 1, m];
+    for step in 0..ops {
+        let k = rng.below(8);
+        match k {
+            0..=2 => {
+                let size = edge[rng.below(edge.len() as u64) as usize];
+                let expect = match model_used.checked_add(size) {
+                    Some(n) => n <= limit,
+                    None => false,
+                };
+                match pool.try_allocate(size) {
+                    Some(r) => {
+                        grants += 1;
+                        if !expect {
+                            violations.push(format!("over-grant: step {}: try_allocate({}) granted with used {} and limit {}", step, size, model_used, limit));
+                        }
+                        model_used = model_used.wrapping_add(size);
+                        held.push((r, size));
+                    }
+                    None => {
+                        denials += 1;
+                        if expect {
+                            violations.push(format!("step {}: try_allocate({}) refused with used {} and limit {}", step, size, model_used, limit));
+                        }
+                    }
+                }
+                hash = (hash ^ (size as u64 ^ expect as u64)).wrapping_mul(0x100000001b3);
+            }
+            3 => {
+                // forced, kept inside the counter's range
+                let room = m - model_used;
+                let pickv = [0usize, 1, 90, room / 2, room.saturating_sub(90), room.saturating_sub(1), room];
+                let size = pickv[rng.below(pickv.len() as u64) as usize];
+                let r = pool.allocate(size);
+                forced += 1;
+                model_used += size;
+                held.push((r, size));
+                hash = (hash ^ 3).wrapping_mul(0x100000001b3);
+            }
+            4 => {
+                if !held.is_empty() {
+                    let i = rng.below(held.len() as u64) as usize;
+                    let cur = held[i].1;
+                    let room = m - model_used;
+                    let new = match rng.below(4) {
+                        0 => 0,
+                        1 => cur / 2,
+                        2 => cur.saturating_add(room.min(90)),
+                        _ => cur.saturating_add(room),
+                    };
+                    held[i].0.resize(new);
+                    model_used = model_used - cur + new;
+                    held[i].1 = new;
+                    if held[i].0.size() != new {
+                        violations.push(format!("step {}: resize({}) left size {}", step, new, held[i].0.size()));
+                    }
+                    hash = (hash ^ 4).wrapping_mul(0x100000001b3);
+                }
+            }
+            _ => {
+                if !held.is_empty() {
+                    let i = rng.below(held.len() as u64) as usize;
+                    let (r, sz) = held.swap_remove(i);
+                    drop(r);
+                    model_used -= sz;
+                    hash = (hash ^ 5).wrapping_mul(0x100000001b3);
+                }
+            }
+        }
+        if pool.used() != model_used {
+            violations.push(format!("quiescent: step {}: used() = {} but live reservations sum to {}", step, pool.used(), model_used));
+            break;
+        }
+        if pool.available() != limit.saturating_sub(model_used) {
+            violations.push(format!("step {}: available() = {} with used {} and limit {}", step, pool.available(), model_used, limit));
+        }
+    }
+    held.clear();
+    if pool.used() != 0 {
+        violations.push(format!("after dropping every reservation used() = {}", pool.used()));
+    }
+    HistoryOutcome { violations, interleaving_hash: hash, ops: ops as u64, grants, denials, forced, samples: ops as u64 }
+}
